@@ -6,7 +6,7 @@ builtin.module {
     %1 = arith.constant 1 : i32
     linalg.generic {indexing_maps = [affine_map<(d0, d1, d2) -> (d0, d2)>, affine_map<(d0, d1, d2) -> (d2, d1)>, affine_map<(d0, d1, d2) -> ()>, affine_map<(d0, d1, d2) -> ()>, affine_map<(d0, d1, d2) -> (d0, d1)>], iterator_types = ["parallel", "parallel", "reduction"]} ins(%arg0, %arg1, %0, %1 : memref<?x128xi8>, memref<128x128xi8>, i32, i32) outs(%arg2 : memref<?x128xi32>) {
     ^bb0(%arg3 : i8, %arg4 : i8, %arg5 : i32, %arg6 : i32, %arg7 : i32):
-      %2 = kernel.qmac %arg5, %arg6 zp_lhs : %arg3 zp_rhs : %arg4 : i32, i32, i8, i8 -> i32
+      %2 = kernel.qmac %arg3, %arg4 zp_lhs : %arg5 zp_rhs : %arg6 : i8, i8, i32, i32 -> i32
       linalg.yield %2 : i32
     }
     func.return %arg2 : memref<?x128xi32>
@@ -23,7 +23,7 @@ builtin.module {
     %1 = arith.constant 1 : i32
     linalg.generic {indexing_maps = [affine_map<(d0, d1, d2) -> (d0, d2)>, affine_map<(d0, d1, d2) -> (d2, d1)>, affine_map<(d0, d1, d2) -> ()>, affine_map<(d0, d1, d2) -> ()>, affine_map<(d0, d1, d2) -> (d0, d1)>], iterator_types = ["parallel", "parallel", "reduction"]} ins(%arg0, %arg1, %0, %1 : memref<128x128xi8>, memref<128x128xi8>, i32, i32) outs(%arg2 : memref<128x128xi32>) {
     ^bb0(%arg3 : i8, %arg4 : i8, %arg5 : i32, %arg6 : i32, %arg7 : i32):
-      %2 = kernel.qmac %arg5, %arg6 zp_lhs : %arg3 zp_rhs : %arg4 : i32, i32, i8, i8 -> i32
+      %2 = kernel.qmac %arg3, %arg4 zp_lhs : %arg5 zp_rhs : %arg6 : i8, i8, i32, i32 -> i32
       linalg.yield %2 : i32
     }
     func.return %arg2 : memref<128x128xi32>
